@@ -397,6 +397,11 @@ fn stub_put_inflight(_q: &PutQuery, tid: u32) -> bool {
 #[kani::stub(PutQuery::inflight, stub_put_inflight)]
 #[kani::stub(ClosestNodes::add, stub_closest_add)]
 #[kani::stub(RoutingTable::add, stub_rt_add)]
+// (reachability is static: without these three, ed25519-dalek and SHA-1 are linked in and
+// goto-instrument alone exceeds 12 GB)
+#[kani::stub(crate::common::MutableItem::from_dht_message, mstub::stub_from_dht_message)]
+#[kani::stub(crate::common::SignedAnnounce::from_dht_response, astub::stub_from_dht_response)]
+#[kani::stub(crate::common::validate_immutable, stub_validate_immutable)]
 fn c08_a_reply_to_a_store_request_is_counted_exactly_once() {
     use crate::core::put_query::verif_kani::{stored_at_of, tallies, tally_of};
     let mut c = core(true);
